@@ -165,7 +165,7 @@ HEAD_PLUGINS = ["strikethrough", "mark", "insert", "superscript", "subscript", "
 HEAD_TEXTS = ["alpha", "beta *em* gamma", "`code` here", "a **strong** b", "x &amp; y", "[link](http://u.v) z", "tail <b>raw</b> t",
               "q < r", "plain words here", "![img](i.png) cap", "one\\*two", "e ~~s~~ f", "",
               "c <!-- x > y --> d", "<!-- a --> b <i>c</i>", "e <!-- --> f <!-- > -->", "x <a href=\"u\">l</a> y", "<span class=\"k\">s</span> t <!-- <b> -->", "[l](/u \"a>b\") m", "![a > b](/i.png) n",
-              "[foo][bar] and [baz]", "see [baz] x", "==Breaking== changes", "H~2~O and x^2^", "a ^^ins^^ b", "$e=mc$ q", "[ruby(rt)] r", ">!sp!< s", "plain = sign", "1 + 1 = 2", "<span title=\"a>b\">x</span> y", "foo <!-- a >\n b --> bar", "<i data-x='>'>k</i> l"]
+              "[foo][bar] and [baz]", "see [baz] x", "Release notes  \nVersion two", "line one\\\nline two", "soft\nbreak", "a  \nb  \nc", "==Breaking== changes", "H~2~O and x^2^", "a ^^ins^^ b", "$e=mc$ q", "[ruby(rt)] r", ">!sp!< s", "plain = sign", "1 + 1 = 2", "<span title=\"a>b\">x</span> y", "foo <!-- a >\n b --> bar", "<i data-x='>'>k</i> l"]
 
 
 def heading_doc(rng):
